@@ -174,6 +174,12 @@ and `P` = `GET /p/{x}`: `lookupWith` with the (trivial) trie walk of each table.
 def modelL (table : String) (p : Bytes) : LRes :=
   let route : List Bytes → Except Nat LRes :=
     if table == "W" then fun ss => .ok (.vars [("path", true, ss)])
+    else if table == "E" then fun ss =>
+      -- `GET /p` beside `GET /p/{rest:.*}`: the wildcard edge of node `p` takes
+      -- whatever follows, the empty remainder included
+      match ss with
+      | [112] :: rest => .ok (.vars [("rest", true, rest)])
+      | _ => .error 404
     else fun ss =>
       match ss with
       | [[112], x] => .ok (.vars [("x", false, [x])])
@@ -187,11 +193,18 @@ def specL (table : String) (p : Bytes) (r : LRes) : Bool :=
   let decoded := (specPieces p).map specDecode
   match r with
   | .status 400 => specBad p
-  | .status 404 => !specBad p && table == "P" && !(decoded.length == 2 && decoded.head? == some [112])
+  | .status 404 => !specBad p &&
+      ((table == "P" && !(decoded.length == 2 && decoded.head? == some [112])) ||
+       (table == "E" && decoded.head? != some [112]))
   | .status _ => false
   | .vars vs =>
     !specBad p && vs.all (fun (_, _, ss) => ss.all specSafe) &&
     (if table == "W" then vs == [("path", true, decoded)]
+     -- table E: which of the two endpoints serves `/p` is C01's business (finding K1);
+     -- here: some endpoint of the table, safe values, and (in `handle`) the same
+     -- answer for every slash-respelling
+     else if table == "E" then decoded.head? == some [112] &&
+       ((vs == [] && decoded.length == 1) || vs == [("rest", true, decoded.drop 1)])
      else decoded.length == 2 && decoded.head? == some [112] && vs == [("x", false, decoded.drop 1)])
 
 def classL (table : String) (p : Bytes) : String :=
@@ -228,7 +241,7 @@ def handle (line : String) : String :=
     let (i1, i2) := splitAt ";" impl
     match unhexN ph, unhexN qh, parseL i1, parseL i2 with
     | some p, some q, some r1, some r2 =>
-      if table != "W" && table != "P" then bad id "table" else
+      if table != "W" && table != "P" && table != "E" then bad id "table" else
       let m1 := modelL table p
       let m2 := modelL table q
       let same := specPieces p == specPieces q
